@@ -1,9 +1,11 @@
-"""C08 — equality / hashing / pickling of DSL objects vs lean/ForML/Model/DslEq.lean.
+"""C08 — equality / hashing / pickling of DSL objects vs lean/ForML/Model/DslIdent.lean (+ the hash model of DslEq.lean).
 
 Pairs of ASTs from the shared generator (props/dslgen.py) are built into real forml objects by two independent
-builders and observed: `==` (both directions), `hash`, `in dict`, `in set`, pickle round trip, `source[name]` after
-the other object was built first (lru_cache on `Source.__getitem__`), parser / reader caches.  The model (free hash
-environment, `pyIntHash` exact) is asked for the same pair; the oracle is structural identity of the two ASTs.
+builders and observed: `==` (both directions), `bool(Equal(x, y))`, `hash`, `in dict`, `in set`, pickle round trip
+(fresh and after the object was used), `source[name]` after the other object was built first (lru_cache on
+`Source.__getitem__`), parser / reader caches; families of statements are put into one dict and looked up again.
+The model (free hash environment, `pyIntHash` exact) is asked for the same pairs / lookups; the oracle is structural
+identity of the ASTs.
 """
 from __future__ import annotations
 
@@ -109,10 +111,26 @@ def _parse(parser, stmt):
         return visitor.fetch()
 
 
+def _reset_caches() -> None:
+    """Empty forml's process-wide lru_caches that are keyed by DSL objects, so that a case depends on the objects of
+    that case only and every reported witness replays in a fresh process (what an *earlier* object of the same
+    process does to a later one is what the pair itself examines: x is built and used before y)."""
+    from forml.io._input import _producer
+    from forml.io.dsl import parser as parsmod
+    from forml.io.dsl._struct import frame
+
+    for fn in (frame.Source.__getitem__, frame.Source.Schema.__getitem__, getattr(_producer.Reader, '_parse_statement', None),
+               getattr(_producer.Reader, '_match_entry', None), getattr(parsmod.Visitor, 'generate_feature', None)):
+        clear = getattr(fn, 'cache_clear', None)
+        if clear is not None:
+            clear()
+
+
 def observe(pair: dict) -> dict:
     """Build both objects (x first, then y) and record everything the property talks about."""
     from forml.io import dsl
 
+    _reset_caches()
     sort, ax, ay = pair['sort'], pair['x'], pair['y']
     out: dict = {'built': True}
     try:
@@ -127,6 +145,16 @@ def observe(pair: dict) -> dict:
         return {'built': False, 'error': type(e).__name__}
     out['eq'] = _truth(lambda: x == y)
     out['eq_rev'] = _truth(lambda: y == x)
+    if sort == 'feature':
+        # truth value of the materialised comparison (`Equal.__bool__`), where `Equal(x, y)` is a legal expression
+        from forml.io.dsl import function
+
+        try:
+            equal = function.Equal(x, y)
+        except Exception:  # pylint: disable=broad-except
+            out['equal_bool'] = None
+        else:
+            out['equal_bool'] = _truth(lambda: bool(equal))
     out['ne'] = _truth(lambda: x != y) if sort != 'feature' else None  # `!=` of features builds a DSL expression
     try:
         out['hash_eq'] = hash(x) == hash(y)
@@ -146,7 +174,10 @@ def observe(pair: dict) -> dict:
     try:
         z = pickle.loads(pickle.dumps(x))
         try:
-            same = g.to_ast(z) == ax
+            back = g.to_ast(z)
+            same = back == ax
+            if not same:
+                out['pickle_got'] = back
         except Exception:  # pylint: disable=broad-except
             same = False
         out['pickle'] = 'ok' if same else 'differs'
@@ -157,6 +188,7 @@ def observe(pair: dict) -> dict:
         out['pickle'] = 'raises:RecursionError'
     except Exception as e:  # pylint: disable=broad-except
         out['pickle'] = f'raises:{type(e).__name__}'
+        out['pickle_msg'] = str(e)[:80]
     if sort == 'source':
         # item access on y after x was built and accessed first
         out['items_x'] = xitems
@@ -195,6 +227,15 @@ def observe(pair: dict) -> dict:
                                     'distinct': fresh_x != fresh_y}
                 except Exception as e:  # pylint: disable=broad-except
                     out['parse'] = f'raises:{type(e).__name__}'
+        # identity survives pickling also once the statement was used (schema, features, parsed: cached attributes)
+        try:
+            z = pickle.loads(pickle.dumps(x))
+            out['pickle_used'] = 'ok' if _truth(lambda: z == x) == 'true' and hash(z) == hash(x) else 'differs'
+        except RecursionError:
+            out['pickle_used'] = None
+        except Exception as e:  # pylint: disable=broad-except
+            out['pickle_used'] = f'raises:{type(e).__name__}'
+            out['pickle_msg'] = str(e)[:80]
     return out
 
 
@@ -218,8 +259,49 @@ def _items(obj, ast) -> typing.Optional[list]:
     return bad
 
 
+def observe_family(fam: dict) -> dict:
+    """Put the (structurally distinct) keys of a family into one dict, look every one of them up again through an
+    independently built copy: [index found | 'none' | 'raises:<Error>'] per key."""
+    _reset_caches()
+    keys, again, used, error = [], [], [], None
+    for i, a in enumerate(fam['keys']):  # a variant the DSL refuses (grammar) is left out
+        try:
+            k, k2 = g.Builder().build(a), g.Builder().build(a)
+        except RecursionError:
+            error = 'RecursionError'
+            continue
+        except Exception as e:  # pylint: disable=broad-except
+            error = type(e).__name__
+            continue
+        keys.append(k)
+        again.append(k2)
+        used.append(i)
+    if len(used) < 2:
+        return {'built': False, 'error': error or 'too-few-keys'}
+    out: dict = {'built': True, 'used': used}
+    try:
+        table = {}
+        for i, k in enumerate(keys):
+            table.setdefault(k, i)
+        members = set(keys)
+    except Exception as e:  # pylint: disable=broad-except
+        return {'built': True, 'used': used, 'size': f'raises:{type(e).__name__}', 'found': [], 'member': []}
+    out['size'] = len(table)
+    out['set_size'] = len(members)
+    found, member = [], []
+    for k in again:
+        try:
+            found.append(table.get(k, 'none'))
+        except Exception as e:  # pylint: disable=broad-except
+            found.append(f'raises:{type(e).__name__}')
+        member.append(_truth(lambda k=k: k in members))
+    out['found'] = found
+    out['member'] = member
+    return out
+
+
 def _observe_chunk(chunk: list) -> list:
-    return [observe(p) for p in chunk]
+    return [observe_family(p) if 'keys' in p else observe(p) for p in chunk]
 
 
 # ---- canonical forms for attributing a violation to a root cause ---------------------------------------------------
@@ -251,6 +333,14 @@ def has_compound(ast) -> bool:
     return False
 
 
+def has_window(ast) -> bool:
+    if isinstance(ast, tuple):
+        if ast and ast[0] == 'window':
+            return True
+        return any(has_window(a) for a in ast)
+    return False
+
+
 def has_float_collision(ax, ay) -> bool:
     """The pair differs in float literals with equal hashes (the model keeps float hashes uninterpreted)."""
     fx = [a for a in _lits(ax) if a[0] == 'float']
@@ -269,27 +359,34 @@ def _lits(ast):
 
 class C08(fw.Check):
     ID = 'C08'
-    LEAN_MODULES = ['ForML.Props.C08']
+    LEAN_MODULES = ['ForML.Props.C08', 'ForML.Lemmas.C08Legacy']
     DRIVER = 'drv_c08'
     RULE = ('pairs of ASTs over the 3-table catalog of props/dslgen.py, built by two independent builders through the '
             'public DSL API: (a) the same statement / feature / kind rebuilt twice, (b) exactly one leaf changed '
             '(literal value, operator, alias, direction, column, reference name, join kind, set kind, row limit, cast kind, '
-            'table twin), (c) literal pairs from CPython hash-collision families (n / n+k(2^61-1), -1/-2/-(2^61), '
-            '0/2^61-1, float 1.0/2.0**61, 0.5/2.0**60, and the non-colliding 1/1.0/True) inside random contexts, '
-            '(d) x vs x.alias(n); a pair is distinct by its two ASTs and non-trivial when it was built and has >= 3 nodes. '
-            'Observed on the real code: ==, hash, in dict, in set, pickle round trip, source[name] after the other object '
-            'was built, parser and reader caches; pyIntHash vs hash(n) on 10^4 integers. Oracle: structural identity of '
-            'the two ASTs.')
+            'table twin = same fields under another name), (c) literal pairs from CPython hash-collision families '
+            '(n / n+k(2^61-1), -1/-2/-(2^61), 0/2^61-1, float 1.0/2.0**61, 0.5/2.0**60, and the non-colliding 1/1.0/True) '
+            'alone and inside random statements, (d) x vs x.alias(n), (e) window features (rebuilt / one leaf changed), '
+            '(f) families of a statement (or feature) with up to 6 of its one-leaf / colliding variants as keys of one '
+            'dict, every key looked up again through a rebuilt copy; a case is distinct by its ASTs and non-trivial '
+            'when it was built and has >= 3 nodes. Observed on the real code: ==, bool(Equal(x, y)), hash, in dict, in '
+            'set, pickle round trip fresh and after use, source[name] after the other object was built, schema ==/hash/'
+            'pickle, parser and reader caches, dict.get over a family; pyIntHash vs hash(n) on 10^4 integers. Oracle: '
+            'structural identity of the ASTs.')
     TRUSTED = [
         'CPython str / type / tuple / float hashing is not modelled (free hash environment: no collisions); '
-        'accidental 64-bit collisions of those are outside the claim',
-        'functools.lru_cache is assumed to look keys up by hash and ==',
-        'pickle protocol: modelled only as "reconstruction from __getnewargs__ succeeds or not"',
+        'accidental 64-bit collisions of those are outside the claim (with structural == they cost time, not identity)',
+        'functools.lru_cache and dict are assumed to look keys up by hash and then == (modelled by dictGet)',
+        'pickle protocol: modelled only as "reconstruction from __getnewargs__ succeeds with the same content or not"',
+        'float literals are modelled by their repr: -0.0 / nan (whose == disagrees with repr) are not generated',
     ]
     ASSUMPTIONS = [
-        'Window features are excluded (experimental in the repo; a Window stores a generator object, so two builds of '
-        'the same window never compare equal) and so are comparisons between objects with a differing presence of '
-        'optional clauses (the implementation raises ValueError from Literal(None))',
+        'a comparison between statements where an optional clause (where / having / join condition) is present on '
+        'one side only raises ValueError (Literal(None)) once all earlier terms are equal: modelled (raises), not '
+        'counted as a violation - the property speaks of objects comparing equal, and a raising == can neither confuse '
+        'a lookup nor answer one',
+        'literal values are int / bool / str / float; Decimal / date / datetime literals and array / map / struct '
+        'literals are not generated',
     ]
 
     # ---- generation ------------------------------------------------------------------------------------------
@@ -354,11 +451,42 @@ class C08(fw.Check):
         add('source', 'collision:int-neg', ('ref', q(('int', -1)), 'r'), ('ref', q(('int', -2)), 'r'))
         add('source', 'mutation:table', g.SCHOOL, g.CAMPUS)
         add('source', 'mutation:table', ('query', g.SCHOOL, (), None, (), None, (), None), ('query', g.CAMPUS, (), None, (), None, (), None))
+        add('feature', 'mutation:table', ('elem', g.SCHOOL, 'id'), ('elem', g.CAMPUS, 'id'))
         add('kind', 'identical', ('array', 'integer'), ('array', 'integer'))
         add('feature', 'alias-wrap', col, ('alias', col, 'x'))
         add('feature', 'alias-wrap', ('alias', col, 'x'), col)
+        join = ('join', t, g.SCHOOL, 'inner', ('expr', 'and', ('expr', 'eq', ('elem', t, 'school'), ('elem', g.SCHOOL, 'id')),
+                                               ('expr', 'gt', ('elem', t, 'level'), ('lit', ('int', 1)))))
+        used = ('query', join, (col,), ('expr', 'gt', ('elem', t, 'level'), ('lit', ('int', 3))), (), None, (), None)
+        add('source', 'identical', used, used)
+        # tables with compound kinds (sources over them must pickle too)
+        doc = lambda name, inner: ('table', name, (('id', 'integer'), ('tags', ('array', 'string')),  # noqa: E731
+                                                   ('attrs', ('map', 'string', inner)),
+                                                   ('meta', ('struct', ('a', 'integer'), ('b', ('array', 'date'))))))
+        d1, d2 = doc('Doc', 'float'), doc('Doc', 'integer')
+        add('source', 'identical', d1, d1)
+        add('source', 'mutation:field-kind', d1, d2)
+        add('source', 'mutation:table', d1, doc('Page', 'float'))
+        dq = lambda d: ('query', d, (('elem', d, 'tags'), ('alias', ('elem', d, 'meta'), 'm')),  # noqa: E731
+                        ('expr', 'gt', ('elem', d, 'id'), ('lit', ('int', 0))), (), None, (), None)
+        add('source', 'identical', dq(d1), dq(d1))
+        add('source', 'mutation:field-kind', dq(d1), dq(d2))
+        add('feature', 'identical', ('elem', d1, 'attrs'), ('elem', d1, 'attrs'))
+        # (e) windows
+        rn = ('expr', 'rownumber')
+        w = lambda fn, part, order: ('window', fn, part, order)  # noqa: E731
+        lvl, sc = ('elem', t, 'level'), ('elem', t, 'score')
+        windows = [w(rn, (), ()), w(rn, (lvl,), ()), w(rn, (lvl,), (('ord', sc, 'desc'),)),
+                   w(('expr', 'sum', sc), (lvl,), (('ord', col, 'asc'),))]
+        for wi in windows:
+            add('feature', 'window:identical', wi, wi)
+            add('source', 'window:identical', ('query', t, (('alias', wi, 'w'), col), None, (), None, (), None),
+                ('query', t, (('alias', wi, 'w'), col), None, (), None, (), None))
+        add('feature', 'window:mutation', windows[1], w(rn, (sc,), ()))
+        add('feature', 'window:mutation', windows[2], w(rn, (lvl,), (('ord', sc, 'asc'),)))
+        add('feature', 'window:mutation', windows[3], w(('expr', 'avg', sc), (lvl,), (('ord', col, 'asc'),)))
         # (a) + (b): statements, their sub-features, one-leaf mutations
-        for _ in range(self.n(260, 5200)):
+        for _ in range(self.n(220, 10000)):
             ast = gen.statement(r.choice((1, 1, 2)))
             add('source', 'identical', ast, ast)
             for label, mut in g.leaf_mutations(ast, r, limit=3):
@@ -382,7 +510,7 @@ class C08(fw.Check):
                     lits = [(p, n) for p, s, n in g.positions(ast) if s == 'feature' and n[0] == 'lit']
                 path, _ = r.choice(lits)
                 x, y = g.replace(ast, path, ('lit', a)), g.replace(ast, path, ('lit', b))
-                if r.random() < 0.4:
+                if r.random() < 0.4 and x[0] != 'ref':  # (a reference of a reference collapses: not a stored form)
                     x, y = ('ref', x, 'r'), ('ref', y, 'r')
                 add('source', 'collision:' + label, x, y)
         # kinds
@@ -392,29 +520,81 @@ class C08(fw.Check):
             add('kind', 'mutation:kind', k, self._kind_mutation(k))
         return pairs
 
+    def _families(self) -> list:
+        """(f) a statement / feature and its variants as the keys of one dict"""
+        r = self.rng
+        gen = g.Gen(r)
+        fams: list = []
+        t = g.STUDENT
+        col = ('elem', t, 'id')
+        q = lambda lit: ('query', t, (col,), ('expr', 'gt', col, ('lit', lit)), (), None, (), None)  # noqa: E731
+        fams.append({'sort': 'source', 'label': 'family:collision', 'keys': (q(('int', -1)), q(('int', -2)), q(('int', -(2 ** 61))), q(('int', 0)), q(('int', M61)))})
+        fams.append({'sort': 'feature', 'label': 'family:collision', 'keys': tuple(('lit', ('int', n)) for n in (-1, -2, 0, M61, 1, 2 ** 61))})
+        fams.append({'sort': 'source', 'label': 'family:table', 'keys': (g.SCHOOL, g.CAMPUS, t)})
+        fams.append({'sort': 'feature', 'label': 'family:alias', 'keys': (col, ('alias', col, 'x'), ('alias', col, 'y'), ('elem', t, 'level'))})
+        collisions = [(a, b) for _, a, b, c in self._collision_pairs() if c and a[0] == 'int']
+        for _ in range(self.n(40, 1500)):
+            sort = 'source' if r.random() < 0.7 else 'feature'
+            ast = gen.statement(1)
+            if sort == 'feature':
+                feats = [n for _, s, n in g.positions(ast) if s == 'feature' and n[0] not in ('window', 'lit')]
+                if not feats:
+                    continue
+                ast = r.choice(feats)
+            keys = [ast] + [m for _, m in g.leaf_mutations(ast, r, limit=4)]
+            lits = [p for p, s, n in g.positions(ast) if s == 'feature' and n[0] == 'lit' and n[1][0] == 'int']
+            if lits:
+                a, b = r.choice(collisions)
+                path = r.choice(lits)
+                keys += [g.replace(ast, path, ('lit', a)), g.replace(ast, path, ('lit', b))]
+            keys = tuple(dict.fromkeys(keys))[:7]
+            if len(keys) >= 2:
+                fams.append({'sort': sort, 'label': 'family', 'keys': keys})
+        return fams
+
     # ---- oracle ---------------------------------------------------------------------------------------------
-    def _cause(self, pair: dict) -> typing.Optional[str]:
+    @staticmethod
+    def _cause_of(sort: str, ax, ay) -> typing.Optional[str]:
         """Known root cause explaining why two *different* ASTs may be confused (None: nothing known)."""
-        ax, ay = pair['x'], pair['y']
         if canon_literals(ax) == canon_literals(ay):
             return 'literal-hash-collision'
         if canon_tables(ax) == canon_tables(ay):
             return 'table-eq-ignores-name'
-        if pair['sort'] == 'feature' and ((ay[0] == 'alias' and ay[1] == ax) or (ax[0] == 'alias' and ax[1] == ay)):
+        if sort == 'feature' and ((ay[0] == 'alias' and ay[1] == ax) or (ax[0] == 'alias' and ax[1] == ay)):
             return 'operable-eq-ignores-alias'
         return None
+
+    def _cause(self, pair: dict) -> typing.Optional[str]:
+        return self._cause_of(pair['sort'], pair['x'], pair['y'])
+
+    @staticmethod
+    def _pickle_sig(ast, obs: dict) -> str:
+        got = obs.get('pickle_got')
+        if got is not None and got != ast and canon_literals(got) == canon_literals(ast):
+            return 'literal-hash-collision'  # the unpickled copy reads the clauses of an equal-hash neighbour
+        if 'mappingproxy' in (obs.get('pickle_msg') or ''):
+            return 'pickle-after-use'
+        if has_compound(ast):
+            return 'compound-kind-pickle'
+        return 'pickle'
 
     def _oracle(self, pair: dict, obs: dict) -> list:
         """[(what, signature)] — the property evaluated on the observations of the real code."""
         out = []
         same = pair['x'] == pair['y']
         sort = pair['sort']
+        window = has_window(pair['x']) or has_window(pair['y'])
 
         def bad(what, sig):
+            # a Window keeps the *generator* of its orderings (readable once, identity hash, not picklable) and
+            # `RowNumber` has identity equality: one root cause for everything a rebuilt window gets wrong
+            if window and sig.split(':')[0] in ('rebuilt', 'built-object-differs', 'item-access', 'pickle', 'parse-nondeterministic'):
+                sig = 'window-identity'
             out.append((f'{what} [{pair["label"]}, {sort}]', sig))
 
+        keys = ('eq', 'eq_rev', 'in_dict', 'in_set') + (('equal_bool',) if obs.get('equal_bool') is not None else ())
         if same:
-            for key in ('eq', 'eq_rev', 'in_dict', 'in_set'):
+            for key in keys:
                 if obs[key] != 'true':
                     bad(f'the same structure built twice: {key} is {obs[key]}', f'rebuilt:{key}')
             if obs.get('ne') not in (None, 'false'):
@@ -423,12 +603,12 @@ class C08(fw.Check):
                 bad('the same structure built twice hashes differently', 'rebuilt:hash')
         else:
             cause = self._cause(pair)
-            for key in ('eq', 'eq_rev', 'in_dict', 'in_set'):
+            for key in keys:
                 if obs[key] == 'true':
                     sig = cause or f'distinct:{key}'
-                    if cause == 'table-eq-ignores-name' and key not in ('eq', 'eq_rev'):
+                    if cause == 'table-eq-ignores-name' and key not in ('eq', 'eq_rev', 'equal_bool'):
                         sig = f'table-confused:{key}'
-                    if cause == 'operable-eq-ignores-alias' and key != 'eq':
+                    if cause == 'operable-eq-ignores-alias' and key not in ('eq', 'eq_rev'):
                         sig = f'alias-confused:{key}'
                     bad(f'different structures: {key} is true', sig)
             if obs.get('ne') == 'false':
@@ -443,8 +623,11 @@ class C08(fw.Check):
                     f'of another source)', sig)
         # pickling
         if obs['pickle'] != 'ok' or obs.get('pickle_eq') != 'true' or obs.get('pickle_hash') is not True or obs.get('pickle_in') != 'true':
-            sig = 'compound-kind-pickle' if has_compound(pair['x']) else 'pickle'
-            bad(f'pickle round trip: {obs["pickle"]}, == {obs.get("pickle_eq")}, hash equal {obs.get("pickle_hash")}', sig)
+            bad(f'pickle round trip: {obs["pickle"]}, == {obs.get("pickle_eq")}, hash equal {obs.get("pickle_hash")}',
+                self._pickle_sig(pair['x'], obs))
+        elif obs.get('pickle_used') not in (None, 'ok'):
+            bad(f'pickle round trip after the statement was used (schema / features / parser): {obs["pickle_used"]} '
+                f'{obs.get("pickle_msg", "")}', self._pickle_sig(pair['x'], obs))
         if sort == 'source':
             for tag in ('x', 'y'):
                 items = obs.get(f'items_{tag}')
@@ -459,7 +642,9 @@ class C08(fw.Check):
                 if not sch['same'] and (sch['eq'] == 'true' or sch['in_dict'] == 'true'):
                     bad('different schemas compare equal', 'schema:distinct')
                 if sch['pickle_eq'] != 'true' or not sch['pickle_hash']:
-                    bad('schema does not survive pickling', 'schema:pickle')
+                    bad('schema does not survive pickling', 'compound-kind-pickle' if has_compound(pair['x']) else 'schema:pickle')
+            elif isinstance(sch, str) and has_compound(pair['x']):
+                bad(f'schema comparison / pickling {sch}', 'compound-kind-pickle')
             prs = obs.get('parse')
             if isinstance(prs, dict):
                 cause = None if same else self._cause(pair)
@@ -471,6 +656,41 @@ class C08(fw.Check):
                     bad('the same statement parses differently', 'parse-nondeterministic')
             elif isinstance(prs, str) and prs.startswith('raises'):
                 bad(f'parsing with shared caches {prs} although it works without', 'parser-cache-raises')
+        return out
+
+    def _oracle_family(self, fam: dict, obs: dict) -> list:
+        """Every key of a dict of structurally distinct keys is found again through a rebuilt copy — itself, not a neighbour."""
+        out = []
+        keys, sort = fam['keys'], fam['sort']
+
+        def bad(what, sig):
+            out.append((f'{what} [{fam["label"]}, {sort}]', sig))
+
+        def collide():
+            for a in range(len(keys)):
+                for b in range(a + 1, len(keys)):
+                    c = self._cause_of(sort, keys[a], keys[b])
+                    if c:
+                        return c
+            return None
+
+        if obs.get('size') != len(keys) or obs.get('set_size', len(keys)) != len(keys):
+            bad(f'{len(keys)} structurally different keys make a dict of {obs.get("size")} / a set of {obs.get("set_size")}',
+                collide() or 'family:merged')
+        for j, got in enumerate(obs.get('found', [])):
+            if got == j:
+                continue
+            if got == 'none':
+                bad(f'key {j} is not found again through a rebuilt copy', 'family:lost-key')
+            elif isinstance(got, int):
+                cause = self._cause_of(sort, keys[j], keys[got])
+                sig = {'table-eq-ignores-name': 'table-confused:in_dict', 'operable-eq-ignores-alias': 'alias-confused:in_dict'}.get(cause, cause)
+                bad(f'looking up key {j} returns the entry of key {got}', sig or 'family:confused')
+            else:
+                bad(f'looking up key {j} {got}', 'family:raises')
+        for j, got in enumerate(obs.get('member', [])):
+            if got != 'true':
+                bad(f'key {j} is not a member of the set of all keys: {got}', 'family:lost-key')
         return out
 
     # ---- correspondence ---------------------------------------------------------------------------------------
@@ -497,10 +717,33 @@ class C08(fw.Check):
             results = pool.map(_observe_chunk, chunks, chunksize=1)
         return [o for chunk in results for o in chunk]
 
+    @staticmethod
+    def _witness(case: dict) -> dict:
+        if 'keys' in case:
+            return {'kind': 'family', 'sort': case['sort'], 'label': case['label'], 'keys': case['keys']}
+        return {'kind': 'pair', **_jsonable(case)}
+
+    def _driver_sanity(self):
+        """The driver tells the colliding literals apart although their hashes agree (a stale / wrong driver binary would
+        silently agree with a regressed implementation otherwise)."""
+        got = self.model([sexp.dumps(('eqf', ('lit', ('int', -1)), ('lit', ('int', -2)))),
+                          sexp.dumps(('eqf', ('lit', ('int', 7)), ('lit', ('int', 7)))),
+                          sexp.dumps(('dictf', (('lit', ('int', -1)), ('lit', ('int', -2))), ('lit', ('int', -2)))),
+                          sexp.dumps(('eqf', ('lit', ('int', 7)), ('nonsense',)))])
+        want = ['(eq false true true)', '(eq true true true)', '(hit 1)', 'bad-op']
+        if got != want:
+            raise fw.MachineryError(f'model driver self-test failed: {got} != {want}')
+        self.notes.append('driver self-test: colliding literals told apart, malformed line rejected')
+
     def correspondence(self):
+        self._driver_sanity()
         self._inthash()
         pairs = self._pairs()
-        observations = self._observe_all(pairs)
+        fams = self._families()
+        observations = self._observe_all(pairs + fams)
+        fam_obs = observations[len(pairs):]
+        observations = observations[:len(pairs)]
+        # ---- pairs
         lines, index = [], []
         for i, (pair, obs) in enumerate(zip(pairs, observations)):
             if not obs['built'] or has_float_collision(pair['x'], pair['y']):
@@ -511,6 +754,7 @@ class C08(fw.Check):
             index.append(i)
         answers = self.model(lines)
         modelled = {i: (sexp.loads(answers[2 * j]), sexp.loads(answers[2 * j + 1])) for j, i in enumerate(index)}
+        first: dict = {}  # signature -> first violating case (shrunk below)
         for i, (pair, obs) in enumerate(zip(pairs, observations)):
             nodes = sum(1 for _ in _nodes(pair['x']))
             key = (pair['sort'], pair['x'], pair['y'])
@@ -528,16 +772,107 @@ class C08(fw.Check):
                         'true' if obs['pickle'] == 'ok' else 'false']
                 if isinstance(fwd, list) and isinstance(rev, list) and fwd[0] == 'eq':
                     mod = [fwd[1], rev[1], fwd[2], fwd[3]]
+                    if obs.get('equal_bool') is not None:  # `Equal.__bool__` is the same function of the two operands
+                        impl.append(want(obs['equal_bool']))
+                        mod.append(fwd[1])
                 else:
                     mod = [fwd, rev]
                 if impl != mod:
                     self.diverge('== / hash / pickle of a pair', {'pair': _jsonable(pair)}, impl, mod)
             for what, sig in self._oracle(pair, obs):
-                self.violate(what, {'kind': 'pair', **_jsonable(pair)}, sig, detail={k: v for k, v in obs.items() if not k.endswith('_got')})
+                detail = {k: v for k, v in obs.items() if not k.endswith('_got')}
+                if sig not in first:
+                    first[sig] = len(self.violations)
+                self.violate(what, self._witness(pair), sig, detail=detail)
+        # ---- families
+        lines, index = [], []
+        fams = [dict(fam, keys=tuple(fam['keys'][u] for u in obs['used'])) if obs['built'] else fam for fam, obs in zip(fams, fam_obs)]
+        for i, (fam, obs) in enumerate(zip(fams, fam_obs)):
+            if not obs['built']:
+                continue
+            op = 'dict' + SORT_OP[fam['sort']][-1]
+            short = tuple(g.short(k) for k in fam['keys'])
+            for k in short:
+                lines.append(sexp.dumps(g.with_let((op, short, k))))
+            index.append(i)
+        answers = iter(self.model(lines))
+        for i, (fam, obs) in enumerate(zip(fams, fam_obs)):
+            key = ('family', fam['sort'], fam['keys'])
+            if not obs['built']:
+                self.case(key, f'{fam["sort"]} family not-built:{obs["error"]}', nontrivial=False)
+                continue
+            self.case(key, f'{fam["sort"]} {fam["label"]} of {len(fam["keys"])}', nontrivial=True)
+            mod = []
+            for _ in fam['keys']:
+                a = sexp.loads(next(answers))
+                mod.append(int(a[1]) if isinstance(a, list) and a[0] == 'hit' else a)
+            impl = ['raises' if isinstance(f, str) and f.startswith('raises') else f for f in obs.get('found', [])]
+            if impl != mod:
+                self.diverge('dict lookup over a family of keys', {'family': self._witness(fam)}, impl, mod)
+            for what, sig in self._oracle_family(fam, obs):
+                if sig not in first:
+                    first[sig] = len(self.violations)
+                self.violate(what, self._witness(fam), sig, detail=obs)
+        self._shrink_first(first)
+
+    # ---- shrinking / search ---------------------------------------------------------------------------------------
+    @staticmethod
+    def _subpairs(sort: str, x, y):
+        """Aligned sub-terms of a pair that still differ (or, for an identical pair, every sub-term), smallest first."""
+        out = []
+
+        def sort_of(node):
+            return 'source' if node[0] in ('table', 'ref', 'join', 'set', 'query') else None if node[0] in ('ord', 'rows') else 'feature'
+
+        def walk(a, b):
+            if not (isinstance(a, tuple) and isinstance(b, tuple) and a and b and isinstance(a[0], str) and isinstance(b[0], str)):
+                if isinstance(a, tuple) and isinstance(b, tuple) and len(a) == len(b):
+                    for u, v in zip(a, b):
+                        walk(u, v)
+                return
+            if a[0] in ('table', 'ref', 'join', 'set', 'query', 'lit', 'elem', 'alias', 'expr', 'cast', 'window') and sort_of(a) == sort_of(b):
+                if (a != b) == (x != y):
+                    out.append((sort_of(a), a, b))
+            if len(a) == len(b) and a[0] == b[0] and a[0] not in ('table', 'lit'):
+                for u, v in zip(a[1:], b[1:]):
+                    walk(u, v)
+
+        walk(x, y)
+        out = [(s, a, b) for s, a, b in out if (a, b) != (x, y) and s is not None]
+        out.sort(key=lambda c: sum(1 for _ in _nodes(c[1])))
+        return out
+
+    def _shrink_first(self, first: dict) -> None:
+        """Replace the first reported witness of every *unknown* signature by the smallest aligned sub-pair that still
+        violates with the same signature (the known root causes already come with minimal corpus witnesses)."""
+        todo = [(sig, idx) for sig, idx in first.items() if self.violations[idx].witness.get('kind') == 'pair'
+                and sum(1 for _ in _nodes(tuplify(self.violations[idx].witness['x']))) > 6][:6]
+        if not todo:
+            return
+        cands, owner = [], []
+        for sig, idx in todo:
+            w = self.violations[idx].witness
+            for s, a, b in self._subpairs(w['sort'], tuplify(w['x']), tuplify(w['y']))[:10]:
+                cands.append({'sort': s, 'label': w['label'] + ' (shrunk)', 'x': a, 'y': b})
+                owner.append((sig, idx))
+        done = set()
+        for cand, obs, (sig, idx) in zip(cands, self._observe_all(cands) if cands else [], owner):
+            if sig in done or not obs['built']:
+                continue
+            for what, s2 in self._oracle(cand, obs):
+                if s2 == sig:
+                    self.violations[idx] = fw.Violation(what, self._witness(cand), sig, {k: v for k, v in obs.items() if not k.endswith('_got')})
+                    done.add(sig)
+                    break
 
     def search(self, reason):
-        # widen around the diverging pairs: every one-leaf mutation of both sides, oracle on the real code
+        # widen around the diverging cases: every one-leaf mutation of both sides, oracle on the real code
         seeds = [d.case['pair'] for d in self.divergences if isinstance(d.case, dict) and 'pair' in d.case][:40]
+        for d in self.divergences:
+            if isinstance(d.case, dict) and 'family' in d.case and len(seeds) < 60:
+                keys = [tuplify(k) for k in d.case['family']['keys']]
+                for a in keys[1:3]:
+                    seeds.append({'sort': d.case['family']['sort'], 'label': 'family-member', 'x': keys[0], 'y': a})
         pairs = []
         for s in seeds:
             s = {'sort': s['sort'], 'label': s['label'], 'x': tuplify(s['x']), 'y': tuplify(s['y'])}
@@ -547,22 +882,34 @@ class C08(fw.Check):
                     for label, mut in g.leaf_mutations(s[side], self.rng, limit=6):
                         pairs.append({'sort': s['sort'], 'label': 'mutation:' + label, 'x': s[side], 'y': mut})
                         pairs.append({'sort': s['sort'], 'label': 'identical', 'x': mut, 'y': mut})
+        first: dict = {}
         for pair, obs in zip(pairs, self._observe_all(pairs) if pairs else []):
             if obs['built']:
                 for what, sig in self._oracle(pair, obs):
-                    self.violate(what, {'kind': 'pair', **_jsonable(pair)}, sig)
-        self.notes.append(f'failing-input search ({reason}): {len(pairs)} pairs around {len(seeds)} diverging ones')
+                    if sig not in first and sig not in {v.signature for v in self.violations}:
+                        first[sig] = len(self.violations)
+                    self.violate(what, self._witness(pair), sig)
+        self._shrink_first(first)
+        self.notes.append(f'failing-input search ({reason}): {len(pairs)} pairs around {len(seeds)} diverging cases')
 
     def replay_finding(self, entry):
         w = entry['witness']
-        if w.get('kind') != 'pair':
-            return None
-        pair = {'sort': w['sort'], 'label': w.get('label', 'replay'), 'x': tuplify(w['x']), 'y': tuplify(w['y'])}
-        obs = self._observe_all([pair])[0]  # in a fresh process: no leftovers of the run in the caches
-        if not obs['built']:
-            return fw.Violation(f'witness does not build: {obs["error"]}', w, 'witness-not-built')
         wanted = entry.get('signature')
-        found = self._oracle(pair, obs)
+        if w.get('kind') == 'family':
+            fam = {'sort': w['sort'], 'label': w.get('label', 'replay'), 'keys': tuple(tuplify(k) for k in w['keys'])}
+            obs = self._observe_all([fam])[0]
+            if not obs['built']:
+                return fw.Violation(f'witness does not build: {obs["error"]}', w, 'witness-not-built')
+            fam = dict(fam, keys=tuple(fam['keys'][u] for u in obs['used']))
+            found = self._oracle_family(fam, obs)
+        elif w.get('kind') == 'pair':
+            pair = {'sort': w['sort'], 'label': w.get('label', 'replay'), 'x': tuplify(w['x']), 'y': tuplify(w['y'])}
+            obs = self._observe_all([pair])[0]  # in a fresh process: no leftovers of the run in the caches
+            if not obs['built']:
+                return fw.Violation(f'witness does not build: {obs["error"]}', w, 'witness-not-built')
+            found = self._oracle(pair, obs)
+        else:
+            return None
         for what, sig in found:
             if wanted is None or sig == wanted:
                 return fw.Violation(what, w, sig)
